@@ -38,6 +38,20 @@ func HostileDocs() *TextSet {
 	})
 }
 
+// HostileArrays: arrays that change with context lines below keys that need escaping.
+func HostileArrays() *TextSet {
+	return memoize("hostile-arrays", func() *TextSet {
+		var out []V
+		arrs := []V{[]interface{}{1.0, 2.0, 3.0}, []interface{}{1.0, 3.0}, []interface{}{2.0}, []interface{}{1.0, 2.0, 3.0, 4.0}}
+		for _, k := range hostileKeys {
+			for _, a := range arrs {
+				out = append(out, map[string]interface{}{k: ref.Clone(a)}, map[string]interface{}{"x": map[string]interface{}{k: []interface{}{ref.Clone(a), 0.0}}})
+			}
+		}
+		return NewTextSet(out)
+	})
+}
+
 func c09Spaces(tier string) []pairLeg {
 	var legs []pairLeg
 	add := func(name string, t *TextSet) { legs = append(legs, pairLeg{name, t, t}) }
@@ -50,6 +64,7 @@ func c09Spaces(tier string) []pairLeg {
 		add("A3cont", Arr(3, "cont"))
 		add("U4", U(4))
 		add("hostile", HostileDocs())
+		add("hostile-arrays", HostileArrays())
 		add("E2", EditStates(2, 1200))
 		add("deep", Deep(true))
 		add("mixed", Mixed())
@@ -63,6 +78,7 @@ func c09Spaces(tier string) []pairLeg {
 		add("A2cont", Arr(2, "cont"))
 		add("U3", U(3))
 		add("hostile", thin(HostileDocs(), 220))
+		add("hostile-arrays", HostileArrays())
 		add("deep", Deep(true))
 		add("mixed", Mixed())
 		add("E1", EditStates(1, 200))
